@@ -66,16 +66,17 @@ struct Out {
     samples: Vec<Value>,
     classes: std::collections::BTreeMap<String, u64>,
     notes: Vec<Value>,
+    cells: std::collections::BTreeMap<String, u64>,
 }
 impl Out {
     fn new() -> Self {
         Out { evaluated: 0, nontrivial: Default::default(), accepted: 0, rejected: 0, panics: 0, weak_accepts: 0, violations: vec![], conflicts: vec![],
-            samples: vec![], classes: Default::default(), notes: vec![] }
+            samples: vec![], classes: Default::default(), notes: vec![], cells: Default::default() }
     }
     fn finish(self, kind: &str, extra: Value) {
         emit(&json!({"kind": kind, "evaluated": self.evaluated, "nontrivial": self.nontrivial.len(), "accepted": self.accepted, "rejected": self.rejected,
             "panics": self.panics, "weak_accepts": self.weak_accepts, "violations": self.violations, "conflicts": self.conflicts,
-            "samples": self.samples, "classes": self.classes, "notes": self.notes, "extra": extra}));
+            "samples": self.samples, "classes": self.classes, "notes": self.notes, "cells": self.cells, "extra": extra}));
     }
     fn record(&mut self, prefix: &str, shape: &str, label: &str, case: &Value, expected_accept: bool, obs: Value, bits: usize, why: Value) {
         let accepted = obs["accepted"].as_bool().unwrap();
@@ -268,6 +269,105 @@ fn hash_id(id: &str) -> u64 {
     h | 1
 }
 
+// ---- several lookups in one STARK (8 columns) ------------------------------------------------
+/// L = 1: A = looking c0,c1,c2 -> table c3, frequencies c4
+/// L = 2: A as above, B = looking c5 -> table c6, frequencies c7          (helper counts differ: 3|4 vs 2)
+/// L = 3: A = looking c0,c1 -> table c2, freq c3; B = looking c4 -> table c2 (shared), freq c5;
+///        C = looking c6 -> table c2, freq c7
+fn multi_sys(l: usize, deg: usize) -> Sys {
+    let lk = |looking: &[usize], t: usize, m: usize| LookupDecl {
+        looking: looking.iter().map(|&c| single(c)).collect(),
+        table: single(t),
+        freq: single(m),
+        filters: vec![None; looking.len()],
+    };
+    let lookups = match l {
+        1 => vec![lk(&[0, 1, 2], 3, 4)],
+        2 => vec![lk(&[0, 1, 2], 3, 4), lk(&[5], 6, 7)],
+        3 => vec![lk(&[0, 1], 2, 3), lk(&[4], 2, 5), lk(&[6], 2, 7)],
+        _ => panic!("multi_sys: {l} lookups"),
+    };
+    Sys { cols: 8, npi: 0, deg, cons: vec![], lookups, ctl: false }
+}
+fn multi_trace(sys: &Sys, n: usize, r: &mut impl Rng) -> Vec<Vec<u64>> {
+    let mut tr: Vec<Vec<u64>> = (0..n).map(|_| (0..sys.cols).map(|_| r.gen::<u64>() % P).collect()).collect();
+    let distinct = (n / 2).max(1);
+    let mut tcols: Vec<usize> = sys.lookups.iter().map(|l| l.table.lin[0].0).collect();
+    tcols.sort();
+    tcols.dedup();
+    for (j, &t) in tcols.iter().enumerate() {
+        let base = 1000 * (j as u64 + 1) + r.gen::<u64>() % 500;
+        for row in 0..n {
+            tr[row][t] = base + 7 * (row % distinct) as u64;
+        }
+    }
+    for l in &sys.lookups {
+        let (t, m) = (l.table.lin[0].0, l.freq.lin[0].0);
+        for row in 0..n {
+            tr[row][m] = 0;
+        }
+        for c in &l.looking {
+            for row in 0..n {
+                tr[row][c.lin[0].0] = tr[r.gen::<usize>() % n][t];
+            }
+        }
+        for c in &l.looking {
+            for row in 0..n {
+                let v = tr[row][c.lin[0].0];
+                let first = (0..n).find(|&q| tr[q][t] == v).unwrap();
+                tr[first][m] = addm(tr[first][m], 1, P);
+            }
+        }
+    }
+    tr
+}
+/// case: {id, cols: 8, multi: L, deg, n_bits, config (nc = number of challenges), action: {kind: none|looking_out|freq, lookup: k}}
+fn multi_case(case: &Value, out: &mut Out, flip: bool) {
+    let l = case["multi"].as_u64().unwrap() as usize;
+    let deg = case["deg"].as_u64().unwrap() as usize;
+    let sys = multi_sys(l, deg);
+    let n = 1usize << case["n_bits"].as_u64().unwrap();
+    let config = config_from(&case["config"]);
+    let id = case["id"].as_str().unwrap_or("?");
+    let mut r = rng(hash_id(id));
+    let mut tr = multi_trace(&sys, n, &mut r);
+    if !lookups_ok(&sys, &tr, P) {
+        out.conflicts.push(json!({"id": id, "what": "the generated honest multi-lookup trace does not satisfy the multiset predicate"}));
+        return;
+    }
+    let act = case["action"]["kind"].as_str().unwrap_or("none");
+    let k = case["action"]["lookup"].as_u64().unwrap_or(0) as usize;
+    let row = r.gen::<usize>() % n;
+    match act {
+        "none" => {}
+        "looking_out" => {
+            let cols = &sys.lookups[k].looking;
+            let c = cols[r.gen::<usize>() % cols.len()].lin[0].0;
+            tr[row][c] = addm(tr[row][c], 1 + r.gen::<u64>() % (P - 1), P);
+        }
+        "freq" => {
+            let m = sys.lookups[k].freq.lin[0].0;
+            tr[row][m] = addm(tr[row][m], 1, P);
+        }
+        x => panic!("unknown multi-lookup action {x}"),
+    }
+    let bad: Vec<usize> = sys.lookups.iter().map(|lk| lookup_bad_values(lk, &tr, P).len()).collect();
+    let mut expected = bad.iter().all(|&b| b == 0);
+    if act != "none" && (expected || bad.iter().enumerate().any(|(i, &b)| (b != 0) != (i == k))) {
+        out.conflicts.push(json!({"id": id, "what": "the corruption of lookup k did not break exactly lookup k", "bad": bad, "k": k}));
+        return;
+    }
+    if flip {
+        expected = !expected;
+    }
+    let obs = prove_and_verify::<8>(&sys, &tr, &config);
+    let label = if act == "none" { "none".to_string() } else { format!("{act}@{k}") };
+    let cell = format!("L{l}C{}d{deg}", config.num_challenges);
+    *out.cells.entry(format!("{cell}/{label}:{}", if obs["accepted"] == json!(true) { "acc" } else { "rej" })).or_insert(0) += 1;
+    let shape = format!("M{l}c{}d{deg}n{}", config.num_challenges, case["n_bits"]);
+    out.record("C10/lookup", &shape, &label, case, expected, obs, binding_bits(&config), json!({"bad_values_per_lookup": bad}));
+}
+
 /// case: {id, cols, k, deg, variant, n_bits, config, action: {kind, ...}}
 fn lookup_case<const N: usize>(case: &Value, out: &mut Out, flip: bool) {
     let k = case["k"].as_u64().unwrap() as usize;
@@ -347,6 +447,10 @@ fn cmd_lookup(args: &[String]) -> anyhow::Result<()> {
     let flip = opt(args, "--flip-expect").and_then(|s| s.parse::<usize>().ok());
     let mut out = Out::new();
     for (i, c) in cases.iter().enumerate() {
+        if c.get("multi").is_some() {
+            multi_case(c, &mut out, flip == Some(i));
+            continue;
+        }
         let cols = c["cols"].as_u64().unwrap() as usize;
         lk_dispatch!(cols, lookup_case, c, &mut out, flip == Some(i));
     }
